@@ -346,6 +346,12 @@ int sqfs_dir_reader_resolve_path(sqfs_dir_reader_t *rd, const char *path,
 
 			len = ent->size + 1;
 			ret = strncmp((const char *)ent->name, path, len);
+
+			/* a name with an embedded null byte cannot equal
+			   a path component; path[len] may not even exist */
+			if (ret == 0 && strnlen((const char *)ent->name, len) < len)
+				ret = 1;
+
 			sqfs_free(ent);
 
 			if (ret == 0 &&
